@@ -500,7 +500,9 @@ public:
 		return mHashSet.Add(hint, std::move(NodeTypeProxy::GetExtractedItem(node)));
 #else
 		(void)hint;
-		return insert(std::move(node)).position;
+		if (node.empty())
+			return end();
+		return mHashSet.Insert(std::move(NodeTypeProxy::GetExtractedItem(node))).position;
 #endif
 	}
 
